@@ -4,6 +4,7 @@
 // line out: result | trace   ||   result | trace      (the SAME composed function applied twice to the same argument)
 // line in:  par n x a1 b1 ... an bn  -> ONE composed function (stages without the call log) called concurrently from 8
 //           goroutines with the arguments x, x+1, ..., x+7, 3000 times each; out: "ok" or "mismatch arg=… got=… want=…"
+// line in:  prog x ; N item … ; N item … ; …  -> several compositions built one after another, nested, shared, re-entered: see prog.go
 package main
 
 import (
@@ -146,6 +147,10 @@ func main() {
 	defer out.Flush()
 	for in.Scan() {
 		w := strings.Fields(in.Text())
+		if len(w) > 0 && w[0] == "prog" { // several compositions in one process: prog.go
+			fmt.Fprintln(out, prog(w[1:]))
+			continue
+		}
 		par := len(w) > 0 && w[0] == "par"
 		if par {
 			w = w[1:]
